@@ -552,6 +552,15 @@ func (p *Profile) compatible(pb *Profile) error {
 // equalValueType returns true if the two value types are semantically
 // equal. It ignores the internal fields used during encode/decode.
 func equalValueType(st1, st2 *ValueType) bool {
+	// An absent value type (e.g. the PeriodType of a profile built in
+	// memory) is the same as the empty one the decoder leaves.
+	var none ValueType
+	if st1 == nil {
+		st1 = &none
+	}
+	if st2 == nil {
+		st2 = &none
+	}
 	return st1.Type == st2.Type && st1.Unit == st2.Unit
 }
 
